@@ -253,6 +253,30 @@ def http_runs(rows, quick):
     return runs
 
 
+REDIRECT_VIAS = ["deny", "denycidr", "scheme", "allow", "rebind"]
+
+
+def redirect_runs(quick):
+    """Real HTTPDeliverer with redirects on: the first hop passes the egress policy and answers 301/302/307/308 with a Location
+    the policy denies (deny rule, CIDR deny rule, scheme, allowlist miss, rebind protection) - a policy denial that reaches the
+    dispatcher through http.Client's redirect machinery - plus the control case where the Location is admitted and followed."""
+    runs = []
+    combos = [(1, 2), (2, 2), (3, 2)] if quick else [(1, 1), (2, 1), (1, 2), (2, 2), (3, 2), (1, 3), (4, 3)]
+    i = 0
+    for via in REDIRECT_VIAS + ["follow"]:
+        for code in (301, 302, 307, 308):
+            for (att, mx) in combos:
+                i += 1
+                kind = "status" if via == "follow" else "denied"
+                runs.append({"name": "http/redir-%s-%d/a%d/m%d" % (via, code, att, mx), "kind": "http", "backend": "memory", "conc": 1,
+                             "retain": True, "http": True, "gated": False,
+                             "targets": [{"name": "t1", "max": mx, "base_us": 1000, "cap_us": 4000, "jn": 5000, "jd": 10000}],
+                             "msgs": [{"id": "m1", "tg": "t1", "att0": att - 1}],
+                             "scripts": {"t1": [{"kind": kind, "code": code, "via": via}]},
+                             "requeue": {"m1": 1 if i % 4 == 0 else 0}, "order": [], "seed": i})
+    return runs
+
+
 DURS = ["1ms", "1500us", "10ms", "250ms", "999ms", "1s", "2s", "7s", "30s", "90s", "2m", "10m", "15m", "333333us", "1m30s"]
 DUR_US = {"1ms": 1000, "1500us": 1500, "10ms": 10000, "250ms": 250000, "999ms": 999000, "1s": 1000000, "2s": 2000000, "7s": 7000000,
           "30s": 30000000, "90s": 90000000, "2m": 120000000, "10m": 600000000, "15m": 900000000, "333333us": 333333, "1m30s": 90000000}
@@ -448,6 +472,9 @@ class Cover:
         self.http_denied = 0
         self.stub_denied = 0
         self.http_delivers = 0
+        self.redir_denied = {}   # way of denial -> deliveries whose redirect hop was denied (real HTTPDeliverer)
+        self.redir_followed = 0  # control: redirect admitted and followed to the second host
+        self.denied_unseen = 0   # denial observed at the transport that the returned error chain did not show
         self.http_mismatch = 0   # observed result differs from the scripted one (machine load); the observed one is validated
         self.delays = {}       # behaviour -> number of retries scheduled
         self.jit0 = self.jit1 = 0
@@ -484,6 +511,12 @@ class Cover:
                 if cfg["http"]:
                     self.http_delivers += 1
                     self.http_mismatch += class_of(e["res"]) != class_of(e["want"])
+                if e.get("redir") and c == "denied":
+                    self.redir_denied[e["via"]] = self.redir_denied.get(e["via"], 0) + 1
+                if e.get("via") == "follow" and e.get("dwire") == 1 and e["res"]["kind"] == "status":
+                    self.redir_followed += 1
+                if c == "denied" and e.get("seen", e["res"])["kind"] != "denied":
+                    self.denied_unseen += 1
                 if c == "denied":
                     if cfg["http"]:
                         self.http_denied += 1
@@ -640,7 +673,7 @@ def run(ctx):
     tab_mem = table_runs(rows, "memory")
     off = ctx.seed % 10
     tab_sql = table_runs(rows, "sqlite", pick=(lambda i: i % 10 == off) if quick else None)
-    htt = http_runs(rows, quick)
+    htt = http_runs(rows, quick) + redirect_runs(quick)
     ctx.count("table_rows_memory", len(tab_mem))
     ctx.count("table_rows_sqlite", len(tab_sql))
     ctx.count("table_rows_http", len(htt))
@@ -708,6 +741,13 @@ def run(ctx):
     require(cover.requeues > 0, "no operator requeue")
     require(cover.http_denied > 0 and cover.stub_denied > 0, "policy denial through HTTPDeliverer and through the stub")
     require(cover.http_delivers > 50, "HTTP deliverer rows")
+    for via in REDIRECT_VIAS:
+        require(cover.redir_denied.get(via, 0) > 0, "no denied redirect hop (%s) through the real HTTPDeliverer" % via)
+    require(cover.redir_followed > 0, "control case: no admitted redirect was followed by the real HTTPDeliverer")
+    for via, n in sorted(cover.redir_denied.items()):
+        ctx.count("redirect_hop_denied_" + via, n)
+    ctx.count("redirect_followed", cover.redir_followed)
+    ctx.count("denials_not_visible_in_error_chain", cover.denied_unseen)
     require(cover.injected > 0, "no fault-injection run")
     dl = [n for name, n in cover.delays.items() if name.startswith("dly-")]
     require(len(dl) >= ncfg or ctx.violations, "retry configurations with delays: %d" % len(dl))
